@@ -92,6 +92,20 @@ fn gen_facts(prog: &Prog, probe: &mut Probe) -> Vec<Vec<Fact>> {
             }
         }
     }
+    // function facts (= (G k) v): the value written by the program and a wrong one
+    let func_terms: Vec<&Term> = terms.iter().filter(|t| matches!(t, Term::App(f, _) if sig.funcs[*f].is_func())).collect();
+    for _ in 0..2 {
+        if !func_terms.is_empty() {
+            let t = func_terms[probe.below(func_terms.len())];
+            if let Term::App(f, _) = t {
+                let v = match sig.funcs[*f].out {
+                    Ty::Bool => Term::B(probe.below(2) == 0),
+                    _ => Term::I(probe.below(14) as i64 - 3),
+                };
+                out.push(vec![Fact::Eq(t.clone(), v)]);
+            }
+        }
+    }
     // a conjunction
     if out.len() >= 2 {
         let a = out[probe.below(out.len())].clone();
@@ -317,6 +331,19 @@ impl C12 {
         // the proven proposition is (an instance of) the queried fact(s)
         let root_p = store.get(root);
         let check_fact = |f: &Fact, p: &Proposition| -> bool {
+            // a fact about a function, (= (f k..) v), is proven as the reflexive row term (f k.. v) = (f k.. v)
+            if let Fact::Eq(a, b) = f {
+                for (app, val) in [(a, b), (b, a)] {
+                    if let Term::App(fi, args) = app {
+                        if sig.funcs[*fi].is_func() {
+                            let mut all = args.clone();
+                            all.push(val.clone());
+                            let row = Term::App(*fi, all);
+                            return instance_of(sig, &row, &w.s(p.lhs())) && instance_of(sig, &row, &w.s(p.rhs()));
+                        }
+                    }
+                }
+            }
             match f {
                 Fact::Eq(a, b) => {
                     let (l, r) = (w.s(p.lhs()), w.s(p.rhs()));
@@ -325,13 +352,14 @@ impl C12 {
                 Fact::T(t) => instance_of(sig, t, &w.s(p.rhs())) || instance_of(sig, t, &w.s(p.lhs())),
             }
         };
-        let ok = if facts.len() == 1 {
-            check_fact(&facts[0], root_p.proposition())
-        } else {
-            match root_p.justification() {
-                Justification::Rule { premise_proofs, .. } => premise_proofs.len() == facts.len() && facts.iter().zip(premise_proofs.iter()).all(|(f, p)| check_fact(f, w.prop(*p))),
-                _ => false,
+        // prove desugars the query into a rule deriving a fresh constructor; when that rule has a single premise the
+        // premise's proof is returned directly, otherwise the root is the rule step and every queried fact must be
+        // proven by one of its premises (a fact about a function and a literal yields more premises than facts)
+        let ok = match root_p.justification() {
+            Justification::Rule { name, premise_proofs, .. } if name.starts_with("@prove_exists_rule") => {
+                facts.iter().all(|f| premise_proofs.iter().any(|p| check_fact(f, w.prop(*p))))
             }
+            _ => facts.len() == 1 && check_fact(&facts[0], root_p.proposition()),
         };
         if !ok {
             out.fail(
@@ -575,6 +603,14 @@ impl Stage for C12 {
                 out.count("prove_queries", 1);
                 match r {
                     Err(p) => {
+                        // triaged root cause (known finding): a function row whose key was re-canonicalised by a union is
+                        // not a reflexive proposition any more; the in-tree checker rejects the extracted proof and
+                        // prove_exists panics
+                        if p.contains("function fact mismatch") || p.contains("new proof is not reflexive") {
+                            out.soft.push(crate::fw::Violation::new("prove-panics:function-row-rebuilt-not-reflexive", format!("{what} panicked (check says {expected}): {p}")));
+                            out.class("known:prove-on-rebuilt-function-row");
+                            continue;
+                        }
                         out.fail(format!("prove-panics:{}", crate::fw::panic_key(&p)), format!("{what} panicked (check says {expected}): {p}"));
                         return out;
                     }
